@@ -836,3 +836,37 @@ def _run_mode_dispatch(u: Unit):
 
 
 unit("C19", "run_mode.dispatch")(_run_mode_dispatch)      # the output folder of a started simulation is created before its run
+
+
+@unit("C19", "write.to_file_dispatch")
+def to_file_dispatch(u: Unit):
+    """to_file(out_format, ...): for each of the eight format names exactly ONE writer is called — the writer of that format (jpeg and jpg
+    share one) — with the given folder, data, name, suffix switch and run number, and its result is returned; an unknown format raises
+    KeyError before anything is written."""
+    fi = u.fn(f"{OU}::to_file")
+    table = {"fits": "to_fits", "hdf": "to_hdf", "npy": "to_npy", "txt": "to_txt", "csv": "to_csv", "png": "to_png", "jpg": "to_jpg", "jpeg": "to_jpg"}
+    for fmt in list(table) + ["tiff"]:
+        cfg = mk_cfg()
+        rec = u.track({})
+        for w in set(table.values()):
+            q = f"{OU}::{w}"
+            cfg.contracts[q] = Contract(q, lambda ex, args, kwargs, fr, w=w, rec=rec: (rec.setdefault("calls", []).append((w, list(args), dict(kwargs))), VOpaque("path", None, {"text": z3.StringVal("/written/by/" + w)}))[1], f"C19.write.*[{w}]")
+
+        def setup(ex, fmt=fmt, rec=rec):
+            rec.clear()
+            h = ex.hold = {"folder": FSM.mk_path(ex, z3.String("folder")), "data": VOpaque("xr", None, {"label": "data"}), "name": VStr(z3.String("bucket_name"))}
+            return [], {"out_format": VStr(fmt), "current_output_folder": h["folder"], "data": h["data"], "name": h["name"], "with_auto_suffix": VBool(z3.Bool("auto_suffix")), "run_number": VInt(z3.Int("run_number"))}
+        ps = u.paths(fi, setup, cfg, label=f"to_file[{fmt}]")
+        for p in ps:
+            calls = rec.get("calls", [])
+            if fmt not in table:
+                u.oblige(p, f"write.to_file_dispatch[{fmt}].unknown_format_refused", p.kind == "raise" and p.exc_name() == "KeyError" and not calls, {"outcome": p.kind}, WRITE_REPLAY)
+                continue
+            ok = p.kind == "return" and len(calls) == 1 and calls[0][0] == table[fmt] and not calls[0][1]
+            h = p.ex.hold
+            kw = calls[0][2] if calls else {}
+            fwd = ok and kw.get("current_output_folder") is h["folder"] and kw.get("data") is h["data"] and kw.get("name") is h["name"] and isinstance(kw.get("with_auto_suffix"), VBool) and isinstance(kw.get("run_number"), VInt)
+            goal = z3.And(zb(bool(fwd)), z_bool(kw["with_auto_suffix"].v) == z3.Bool("auto_suffix"), z_int(kw["run_number"].v) == z3.Int("run_number")) if fwd else z3.BoolVal(False)
+            u.oblige(p, f"write.to_file_dispatch[{fmt}].its_own_writer_with_the_given_arguments", goal, {"called": str([c[0] for c in calls])}, WRITE_REPLAY)
+            u.oblige(p, f"write.to_file_dispatch[{fmt}].returns_the_writers_path", bool(ok and isinstance(p.value, VOpaque) and p.value.kind == "path" and "/written/by/" + table[fmt] in str(p.value.info.get("text"))), {}, WRITE_REPLAY)
+        u.cover(f"write.to_file_dispatch.cover[{fmt}]", ps, lambda p: True)
